@@ -4,6 +4,9 @@ import (
 	"context"
 	"fmt"
 	"testing"
+	"time"
+
+	"pgregory.net/rapid"
 )
 
 // C02 — retry budget and fallback are exact.
@@ -96,9 +99,22 @@ func c02Body(sc *WF) Verdict {
 	nontrivial := false
 	classes := map[string]bool{}
 	for r := 0; r < sc.runs(); r++ {
-		rr := x.run(context.Background())
+		ctx := context.Background()
+		if sc.DeadlineMs > 0 {
+			// a context with a deadline that (usually) does not expire: the budget must not depend on it
+			c2, cancel := context.WithDeadline(ctx, time.Now().Add(time.Duration(sc.DeadlineMs)*time.Millisecond))
+			defer cancel()
+			ctx = c2
+		}
+		rr := x.run(ctx)
 		if rr.Panic != "" {
 			return bad("C02:panic", "run panicked: %s", rr.Panic)
+		}
+		if ctx.Err() != nil {
+			return ok(false, "deadline-expired") // the deadline did strike: C05/C20's business
+		}
+		if sc.DeadlineMs > 0 {
+			classes["live-deadline"] = true
 		}
 		tr := x.snapshot()[rr.Lo:rr.Hi]
 		segs := segments(tr)
@@ -207,7 +223,13 @@ func TestC02(t *testing.T) {
 	})
 	r.exhaustive(fmt.Sprintf("single node: N in 1..%d x every exec failure sequence of length N+1 x fallback{ok,err,passthrough} x all node kinds and function styles: %d cases", maxN, n))
 	g := wfGen{MaxLeaves: 4, MaxFlows: 2, Actions: []string{"a", "b", ""}, PErr: 20, PExecErr: 550, MaxN: 8, Waits: true, MaxVisits: 3, FuelMax: 10, MaxRuns: 2}
-	rapidPart(r, "rand-flow", r.pick(2000, 30000), g.gen, checkC02)
+	rapidPart(r, "rand-flow", r.pick(2000, 30000), func(rt *rapid.T) WF {
+		w := g.gen(rt)
+		if rapid.Bool().Draw(rt, "deadline") {
+			w.DeadlineMs = rapid.SampledFrom([]int{60, 120, 5000, 4000000, 8000000, 30000000}).Draw(rt, "dl")
+		}
+		return w
+	}, checkC02)
 	c02Batch(r)
 }
 
